@@ -42,6 +42,14 @@ def _cases_for_version(args):
             if r["kind"] == "complex" and r["dt"] not in hosts and seg != "MSH" and r["max"] != 0:
                 hosts[r["dt"]] = (seg, r["name"], r["i"])
         last = rows[-1] if rows else None
+        # every field the version's FIELD table defines for this segment is a position of it, whatever the segment row says
+        listed = set(r["name"] for r in rows)
+        for fname in sorted(x for x in T.lib(v).FIELDS if x.startswith(seg + "_") and x not in listed):
+            try:
+                n_ = int(fname[len(seg) + 1:])
+            except ValueError:
+                continue
+            cases.append({"kind": "field", "v": v, "seg": seg, "i": n_, "j": 1, "s": 1, "name": fname, "path": [fname], "wd": False})
         if last is not None and last["kind"] == "varies":
             N = 40 if tier == "quick" else 512
             extra = [last["i"] + 1, last["i"] + 2, N] + [rnd.randint(last["i"] + 1, N) for _ in range(3)]
@@ -186,9 +194,33 @@ def observe_full(case, level=None):
     return e
 
 
+def _noise(v):
+    """calls on throw-away elements that must not matter to anything else: datatype overrides, refused assignments"""
+    import_hl7apy()
+    from hl7apy.core import Segment, Field, Component
+    for fn in (lambda: setattr(Component("CX_4", version=v), "datatype", "CE"),
+               lambda: setattr(Component("XPN_1", version=v), "datatype", "CE"),
+               lambda: setattr(Field("PID_3", version=v), "datatype", "CE"),
+               lambda: Field("PID_5", datatype="CX", version=v),
+               lambda: setattr(Field("OBX_5", version=v), "datatype", "CX"),
+               lambda: setattr(Segment("PID", version=v), "pid_99", "x"),
+               lambda: Segment("ZZZ", version=v).add_field("ZZZ_400")):
+        try:
+            fn()
+        except Exception:
+            pass
+
+
+_NOISED = set()
+
+
 def _observe_chunk(args):
     cases, level = args
     out = []
+    for v_ in sorted(set(c["v"] for c in cases)):
+        if v_ not in _NOISED:
+            _NOISED.add(v_)
+            _noise(v_)
     for n, c in enumerate(cases):
         if level == "S":
             # a withdrawn position (cardinality 0..0) is rightly refused under STRICT: the position law is about the
